@@ -62,11 +62,16 @@ def compare(sc, base_game, base_runs, game2, perm, ren, acc, exact=True, where="
         inv[perm[s]] = s
     for prune in (True, False):
         b = base_runs[prune]
-        o2 = Rn.solve(game2, prune, cpu_s=sweep.STOP_CPU, confirm=False)
+        o2 = Rn.solve(game2, prune, cpu_s=120.0 if sc.n > 40 else sweep.STOP_CPU, confirm=False)
         acc["executions"] += 1
         cfg = {"prune": prune}
         if "timeout" in (b.out.kind, o2.kind):
             acc["stopping_timeouts"] = acc.get("stopping_timeouts", 0) + 1
+            continue
+        if b.out.kind != o2.kind and prune and {b.out.kind, o2.kind} == {"nosol", "ok"} and 0 < sc.vstar[0] <= sc.eps_reach():
+            known.append(("KF-C06-1", o2.kind, b.out.kind,
+                          "one presentation is declared to have no solution, the other is solved: the exact value of the initial state is %.3g, "
+                          "not larger than the convergence tolerance" % float(sc.vstar[0]), cfg))
             continue
         if b.out.kind != o2.kind:
             findings.append(("C13/solvability-differs", o2.brief(), b.out.brief(),
@@ -79,7 +84,15 @@ def compare(sc, base_game, base_runs, game2, perm, ren, acc, exact=True, where="
             continue
         r1, r2 = b.out.result, o2.result
         eps = 2 * sc.eps_reach()
-        # 1. reachability strategies
+        # 1. probabilities
+        for s in range(n):
+            if abs(r1[3][s] - r2[3][perm[s]]) > eps:
+                findings.append(("C13/probability-differs", r2[3][perm[s]], r1[3][s],
+                                 "state %d: probability %r vs %r in the base presentation (tolerance %.3g)" % (s, r2[3][perm[s]], r1[3][s], eps), cfg))
+                break
+        if findings:
+            continue
+        # 2. reachability strategies
         tie = False
         for s in range(n):
             if sc.players[s] == PR:
@@ -88,6 +101,15 @@ def compare(sc, base_game, base_runs, game2, perm, ren, acc, exact=True, where="
             want = _map_strat(r1[1][s], names2, ren)
             got = r2[1][perm[s]]
             if got != want:
+                # a difference that follows from the (in-tolerance) difference of the reported values: each run applies the
+                # documented rounding rule to its own numbers, and the numbers of the competing successors are not the same
+                row1 = sc.tl[s]
+                row2 = game2["transition_list"][perm[s]]
+                if (r1[1][s] == J._rule_actions(sc.players[s], row1, r1[3]) and got == J._rule_actions(sc.players[s], row2, r2[3])
+                        and any(r1[3][t] != r2[3][perm[t]] for _, t in row1)):
+                    acc["pairs_differing_within_tolerance"] = acc.get("pairs_differing_within_tolerance", 0) + 1
+                    tie = True
+                    break
                 # rounded tie? both runs must individually match the KF-C04-1 signature or be exact
                 f1, k1 = J.judge_c04(sc, r1[1], r1[3])
                 sc2 = J.SCache(game2["players"], game2["transition_list"], game2["final_states"])
@@ -103,14 +125,6 @@ def compare(sc, base_game, base_runs, game2, perm, ren, acc, exact=True, where="
                                      % (s, perm[s], got, want, prune), cfg))
                 break
         if findings or tie:
-            continue
-        # 2. probabilities
-        for s in range(n):
-            if abs(r1[3][s] - r2[3][perm[s]]) > eps:
-                findings.append(("C13/probability-differs", r2[3][perm[s]], r1[3][s],
-                                 "state %d: probability %r vs %r in the base presentation (tolerance %.3g)" % (s, r2[3][perm[s]], r1[3][s], eps), cfg))
-                break
-        if findings:
             continue
         # 3. rewards and final strategies on the states the properties speak about
         ctl = b.ctl
@@ -190,6 +204,23 @@ def compare(sc, base_game, base_runs, game2, perm, ren, acc, exact=True, where="
             names2 = [a for a, _ in game2["transition_list"][perm[s]]]
             want = _map_strat(r1[0][s], names2, ren)
             got = r2[0][perm[s]]
+            if got != want and b.out.snap is not None and o2.snap is not None:
+                # explained by in-tolerance differences of the reported rewards: each run follows the documented rounding rule on
+                # its own numbers over its own permitted transitions, and those numbers are not the same
+                def rule_rew(who, row, rew):
+                    best, acts = None, []
+                    for a, t in row:
+                        x = round(rew[t], 6)
+                        if best is None or (x > best if who == P1 else x < best):
+                            best, acts = x, [a]
+                        elif x == best:
+                            acts.append(a)
+                    return acts
+                row1, row2 = b.out.snap[s], o2.snap[perm[s]]
+                if (len(row1) == len(row2) and r1[0][s] == rule_rew(sc.players[s], row1, r1[2]) and got == rule_rew(sc.players[s], row2, r2[2])
+                        and any(r1[2][t] != r2[2][perm[t]] for _, t in row1)):
+                    acc["pairs_differing_within_tolerance"] = acc.get("pairs_differing_within_tolerance", 0) + 1
+                    break
             if got != want:
                 # rounded reward tie (the *_total_rewards analogue of KF-C04-1): exact successor rewards tie, both lists are
                 # sub-lists of the exact optimal list and follow the rounding rule on their own reported numbers
@@ -286,7 +317,7 @@ def check_structure(sc, rewards, mode, acc, uname):
     base_runs = {}
     for prune in (True, False):
         base_runs[prune] = J.GameRun(sc, rewards, prune, confirm=False,
-                                     outcome=Rn.solve(game, prune, cpu_s=sweep.STOP_CPU, confirm=False))
+                                     outcome=Rn.solve(game, prune, cpu_s=120.0 if sc.n > 40 else sweep.STOP_CPU, confirm=False))
         acc["executions"] += 1
     npres = 0
     for perm, orders, ren in presentations(game, mode):
@@ -480,7 +511,8 @@ RULE = ("for every stopping game of the listed universes: every permutation of t
 ASSUME = ["tolerances 2*eps(G) and 2*eps_R(G) from the exact solver; boards: engineering tolerance 1e-3 and strategies only at clearly separated values",
           "pairs whose strategies differ only by a rounded tie matching the KF-C04-1 signature are counted under that known finding and their "
           "downstream numbers are not compared"]
-KF = {"KF-C04-1": "presentation-dependent loss of an exact tie by rounding non-converged iterates (same finding as C04; e.g. inputs/example_17_08.py state 0)"}
+KF = {"KF-C06-1": "solvability depends on the numbering when the initial state's exact value is positive but not larger than the convergence tolerance (same finding as C06)",
+      "KF-C04-1": "presentation-dependent loss of an exact tie by rounding non-converged iterates (same finding as C04; e.g. inputs/example_17_08.py state 0)"}
 
 
 def plan(ctx):
@@ -526,6 +558,9 @@ def plan(ctx):
     fam("U-P2", "sum-gens", stride=1 if ctx.thorough else 36, offset=ctx.seed)    # two-level choices
     fam("U-G", "sum-gens", stride=6 if ctx.thorough else 48, offset=ctx.seed)    # corridors of 11-16 states
     fam("U-A", "sum", stride=1 if ctx.thorough else 3, offset=ctx.seed, all_sizes=bool(ctx.thorough))    # large acyclic games (4 presentations each)
+    fam("U-J", "sum")              # a 1100-state chain under 4 numberings
+    if ctx.thorough:
+        fam("U-H", "sum")
     fam("U-K", "sum-gens", stride=1 if ctx.thorough else 4, offset=ctx.seed)
     fam("U-N", "sum")              # near chains: order of three almost-equal successors must not matter
     if ctx.thorough:
@@ -555,6 +590,7 @@ def run(ctx):
            "evaluations": tot["games"], "distinct_nontrivial": tot["nontrivial"], "rule": RULE, "universes": spaces,
            "presentation_pairs": tot["games"], "board_pairs": tot.get("board_pairs", 0),
            "board_mode_runs_unclassified_near_tie": tot.get("board_pairs_unclassified_near_tie", 0),
+           "pairs_whose_strategies_differ_because_reported_values_differ_within_tolerance": tot.get("pairs_differing_within_tolerance", 0),
            "non_stopping_structures_skipped": tot.get("skipped_structures", 0),
            "exhaustive": not truncated, "samples": tot.get("samples", [])[:6]}
     return {"coverage": cov, "violations": tot.get("violations", []), "known": known, "assumptions": ASSUME}
